@@ -26,7 +26,7 @@ func C10_response_template() {
 	wantProto := ""
 	wantExt := 0
 	dropAccept := false
-	env := vChoose("env", 4)
+	env := vChoose("env", 5)
 	switch vChoose("perturb", 9) {
 	case 0:
 	case 1: // version digits
@@ -152,6 +152,9 @@ func C10_response_template() {
 			lines = append(lines, "Sec-WebSocket-Accept: "+string(acc))
 		}
 		lines = append(lines, extra...)
+		if env == 4 {
+			lines = append(lines, "X-Pad: pppppppppppppppppppppppppppppppppppppppppppppppppppppppppppppppppppppppppppppppppppppppppppppppppppppppppppppppppppppppppppppppppppppppppppppppppppppp")
+		}
 		if env == 1 { // reversed header order
 			for i, j := 0, len(lines)-1; i < j; i, j = i+1, j-1 {
 				lines[i], lines[j] = lines[j], lines[i]
@@ -171,6 +174,10 @@ func C10_response_template() {
 	}
 	if env == 3 {
 		d.ReadBufferSize = 256
+	}
+	if env == 4 { // the head arrives line by line and ends with a long header line: every buffer
+		// refill slides over bytes parsed earlier
+		srv.lines = true
 	}
 	u := &url.URL{Scheme: "ws", Host: "example.com", Path: "/"}
 	br, hs, err := d.Upgrade(srv, u)
